@@ -86,7 +86,7 @@ Theorem P_RAM_formula g R_m E S_a S_m eps_a : 0 <= eps_a -> 0 < E ->
   (product < 0 -> P_RAM_value g R_m E S_a S_m eps_a = 0).
 Proof. exact (C09Damage.P_RAM_formula g R_m E S_a S_m eps_a). Qed.
 
-Theorem damage_calculator_uses_curve Z D d1 d2 P : D < P -> pram_calc_N Z D d1 d2 P = Finite (dc_N Z d1 d2 P).
+Theorem damage_calculator_uses_curve Z D d1 d2 P : 0 < Z -> D < P -> pram_calc_N Z D d1 d2 P = Finite (dc_N Z d1 d2 P).
 Proof. exact (C09Damage.dc_N_is_curve Z D d1 d2 P). Qed.
 
 Theorem half_hysteresis_counts_half N : dc_D false N = dc_D true N / 2.
